@@ -410,7 +410,7 @@ func runChunkCase(c *vf.Ctx, env *chunkEnv, cc *chunkCase, r *rand.Rand) {
 	sigp := "chunk/"
 	report := func(class, what string, w *segWitness) {
 		wit := *cc
-		if w != nil && w.Column != nil && l.rows() > 4000 {
+		if l.rows() > 300 {
 			wit.Rec = nil
 			wit.Note = "record omitted (large); regenerate from seed/cfg/idx"
 		}
@@ -443,7 +443,7 @@ func runChunkCase(c *vf.Ctx, env *chunkEnv, cc *chunkCase, r *rand.Rand) {
 			}
 		}
 	}
-	if cc.Idx < 2 {
+	if cc.Cfg == baseCfg && cc.Idx == 0 {
 		c.Sample(map[string]any{"part": "chunk", "cfg": cc.Cfg, "rows": l.rows(), "rows_per_segment": cc.MaxRows, "segments": cm.SegmentCount(),
 			"columns": panicInputClass(l), "time_generator": l.TGen, "sliced_input": l.Head > 0, "chunk_bytes": len(chunk)})
 	}
